@@ -154,12 +154,12 @@ theorem planState_plain (diff : Differ) (hd : GoodDiffer diff) (a b : Vsys)
   rw [hfuel]
   generalize (sortVsys a).groups.length + (sortVsys b).groups.length + (sortVsys b).sgroups.length + 1 = fuel
   have h0 : NoGrp (initSt (sortVsys a) (sortVsys b)
-      (uniqNames ((sortVsys a).groups.map (·.name)) ((sortVsys b).groups.map (·.name)))) := by
+      (groupNamesFor (sortVsys a) (sortVsys b))) := by
     constructor <;> simp [initSt, sortVsys, hag, hbg]
   have h1 := markObjects_noGrp (fuel + 1) _ (sortVsys b).rules h0
   obtain ⟨s1, s2⟩ := markObjects_sg_nil (fuel + 1) (sortVsys b).rules
     (initSt (sortVsys a) (sortVsys b)
-      (uniqNames ((sortVsys a).groups.map (·.name)) ((sortVsys b).groups.map (·.name))))
+      (groupNamesFor (sortVsys a) (sortVsys b)))
     (by simp [initSt, sortVsys, hasg]) (by simp [initSt, sortVsys, hbsg])
   rw [diffRules_noGrp diff hd fuel _ h1]
   refine ⟨h1.1, h1.2, s1, s2, ?_⟩
